@@ -598,7 +598,41 @@ impl<const P: u8, const G: i8, const N: usize, const D: usize> NbFront<P, G, N, 
         let mut phase = 0u8;
         let mut retried = false;
         let mut last_event_was: u8 = 0; // 0 = api call, 1 = timeout, 2 = rx done, 3 = tx complete
-        for _ in 0..2000 {
+        for it in 0..2000u32 {
+            // the application is free to call into the device while a transaction is in flight; the state
+            // machine must refuse such calls and carry on. What the device answers is what the
+            // application reacts to (a refusal: nothing; anything else: the new response).
+            let pattern = self.env.0.borrow().nb_meddle;
+            if pattern >> (it % 32) & 1 == 1 {
+                let in_flight = match &resp {
+                    Ok(Response::UplinkSending(_)) | Ok(Response::JoinRequestSending) => Some(0u8),
+                    Ok(Response::TimeoutRequest(_)) => Some(if phase == 0 || phase == 2 { 1 } else { 2 }),
+                    Ok(Response::NoUpdate) if phase == 1 || phase == 3 => Some(2),
+                    _ => None,
+                };
+                if let Some(st) = in_flight {
+                    self.env.0.borrow_mut().meddles += 1;
+                    let pick = (pattern.rotate_right(it % 32 + 7) ^ it) % 4;
+                    let got = match (pick, st) {
+                        (0, _) => self.dev.send(&[0xEE, 0xEE, 0xEE], 9, pattern & 0x100 != 0),
+                        (1, _) => self.dev.join(JoinMode::OTAA { deveui: DevEui::from([0x11; 8]), appeui: AppEui::from([0x22; 8]), appkey: AppKey::from([0x33; 16]) }),
+                        // a timer that fires although nothing was asked of it is tolerated while the frame is being sent
+                        (2, 0) => self.dev.handle_event(Event::TimeoutFired),
+                        // a radio interrupt while the device waits for a window to start: refused without touching the radio
+                        (2, 1) | (3, 1) => self.dev.handle_event(Event::RadioEvent(nb_device::radio::Event::Phy(NbPhyEvent::RxDone))),
+                        _ => self.dev.send(&[], 1, false),
+                    };
+                    match got {
+                        Err(nb_device::Error::State(_)) => {}
+                        Ok(Response::NoUpdate) if st == 0 => {}
+                        other => {
+                            // not refused: the application sees this response now
+                            self.env.push(Ev::Resp("meddling call was not refused".into()));
+                            resp = other;
+                        }
+                    }
+                }
+            }
             if self.env.0.borrow().capture_sessions {
                 if let Some(sess) = self.dev.get_session() {
                     let pair = (serde_json::to_string(sess).expect("session serialises"), norm_session_debug(&format!("{sess:?}")));
@@ -635,6 +669,7 @@ impl<const P: u8, const G: i8, const N: usize, const D: usize> NbFront<P, G, N, 
                                 self.dev.handle_event(Event::RadioEvent(nb_device::radio::Event::Phy(NbPhyEvent::RxDone)))
                             }
                             None => {
+                                phase += 1;
                                 last_event_was = 1;
                                 self.dev.handle_event(Event::TimeoutFired)
                             }
@@ -691,6 +726,7 @@ impl<const P: u8, const G: i8, const N: usize, const D: usize> NbFront<P, G, N, 
                                         resp = self.dev.handle_event(Event::RadioEvent(nb_device::radio::Event::Phy(NbPhyEvent::RxDone)));
                                     }
                                     None => {
+                                        phase += 1;
                                         last_event_was = 1;
                                         resp = self.dev.handle_event(Event::TimeoutFired);
                                     }
